@@ -57,11 +57,18 @@ static void hc_global_init(void)
 	event_set_log_callback(hc_logcb);
 	signal(SIGPIPE, SIG_IGN);
 	/* a port nobody listens on: bound, never listen()ed, kept for the life of the worker */
-	hc_refused_fd = socket(AF_INET, SOCK_STREAM, 0);
-	memset(&sin, 0, sizeof sin);
-	sin.sin_family = AF_INET; sin.sin_addr.s_addr = htonl(INADDR_LOOPBACK);
-	if (hc_refused_fd < 0 || bind(hc_refused_fd, (struct sockaddr *)&sin, sizeof sin) < 0 ||
-	    getsockname(hc_refused_fd, (struct sockaddr *)&sin, &sl) < 0) { perror("refused port"); abort(); }
+	/* bind(port 0) can fail for a while when the machine's ephemeral ports are tied up (TIME_WAIT of other
+	 * runs): wait (real time, this is process start-up, not an execution) instead of giving up */
+	for (int attempt = 0; ; attempt++) {
+		hc_refused_fd = socket(AF_INET, SOCK_STREAM, 0);
+		memset(&sin, 0, sizeof sin);
+		sin.sin_family = AF_INET; sin.sin_addr.s_addr = htonl(INADDR_LOOPBACK);
+		if (hc_refused_fd >= 0 && bind(hc_refused_fd, (struct sockaddr *)&sin, sizeof sin) == 0 &&
+		    getsockname(hc_refused_fd, (struct sockaddr *)&sin, &sl) == 0) break;
+		if (attempt > 240) { perror("refused port"); abort(); }
+		if (hc_refused_fd >= 0) close(hc_refused_fd);
+		struct timespec ts = { 0, 250000000L }; ppoll(NULL, 0, &ts, NULL);
+	}
 	hc_refused_port = ntohs(sin.sin_port);
 	/* warm up lazily initialised library state so that allocation baselines are stable */
 	{
@@ -201,8 +208,33 @@ static int hc_listener(int *port)
 		err = errno;
 		close(fd);
 	}
-	mc_fail("harness:listener", "%s", strerror(err));
+	errno = err;
 	return -1;
+}
+
+/* One listener per worker process, created at start-up and kept: creating (bind port 0) a listener per
+ * execution runs the machine out of bindable ephemeral ports, because every served TCP connection can leave
+ * a TIME_WAIT entry behind for 60 s.  Outgoing connects are not affected (tcp_tw_reuse covers loopback). */
+static int hc_worker_listen_fd = -1, hc_worker_listen_port;
+static void hc_worker_listener_init(void)
+{
+	for (int attempt = 0; hc_worker_listen_fd < 0; attempt++) {
+		hc_worker_listen_fd = hc_listener(&hc_worker_listen_port);
+		if (hc_worker_listen_fd >= 0) break;
+		if (attempt > 240) { perror("worker listener"); abort(); }
+		struct timespec ts = { 0, 250000000L }; ppoll(NULL, 0, &ts, NULL);
+	}
+}
+/* drop whatever is waiting in the accept queue (abortively: no TIME_WAIT) */
+static void hc_worker_listener_drain(void)
+{
+	for (;;) {
+		int fd = accept(hc_worker_listen_fd, NULL, NULL);
+		if (fd < 0) break;
+		struct linger lg = { 1, 0 };
+		setsockopt(fd, SOL_SOCKET, SO_LINGER, &lg, sizeof lg);
+		close(fd);
+	}
 }
 
 /* give an outgoing evhttp_connection created with ..._reuse_new a peer address so
